@@ -48,7 +48,34 @@ func TestMain(m *testing.M) { vk.Main(m) }
 // panics in the same function with the same message is hidden (for "reflect: index out of range" the key
 // additionally says whether the cell had a negative/extreme operand, so a lost upper-bound check still shows).
 var knownOpen = map[string]bool{
-	// (empty: the 27 root causes found when this check was first run were fixed in /repo)
+	// (the 27 root causes found when this check was first run, and AF-29..32, were fixed in /repo)
+
+	// OPEN, class "cyclic-value": a value that contains itself (template: <% let a = [1] %><% a[0] = a %>; Go data:
+	// m["self"] = m) is handed to the fmt package - string operators, the index / argument / operand printed in an
+	// error message, inspect / debug, pathFor's ID - or walked by pathFor's own recursion: fatal stack overflow.
+	// Pool values: selfslice selfmap selfkids selfid selfptr tselfarr tselfhash (pv.Fatal: rendered in a child
+	// process). Witness + fix: /tmp/c04hunt/cyclic-value/{main.go,fix.diff}. Delete these 9 lines once it is fixed.
+	"stringsOperator@compiler.go: fatal error: stack overflow":       true,
+	"arrayOperator@compiler.go: fatal error: stack overflow":         true,
+	"evalAccessIndex@compiler.go: fatal error: stack overflow":       true,
+	"evalUpdateIndex@compiler.go: fatal error: stack overflow":       true,
+	"evalCallExpression@compiler.go: fatal error: stack overflow":    true,
+	"helpers/debug.Inspect@inspect.go: fatal error: stack overflow":  true,
+	"helpers/paths.PathFor@path_for.go: fatal error: stack overflow": true,
+	"helpers/paths.byField@path_for.go: fatal error: stack overflow": true,
+	"fatal error: stack overflow [random program, any site]":         true, // the runtime prints 100 frames: in a deep random program the frame next to fmt may be elided
+
+	// OPEN, class "foreign-context": Render / Exec accept any hctx.Context, but for, x[i].m and f().m assert
+	// *plush.Context (matrix "ctx": Case.Ctx = "helptest", plush's own helpers/helptest.HelperContext).
+	// Witness + fix: /tmp/c04hunt/foreign-context/{main.go,fix.diff}. Delete these 3 lines once it is fixed.
+	"evalForExpression@compiler.go: interface conversion: interface is T, not U":  true,
+	"evalIndexCallee@compiler.go: interface conversion: interface is T, not U":    true,
+	"evalCallExpression@compiler.go: interface conversion: interface is T, not U": true,
+
+	// OPEN, class "nil-data-map": NewContextWith(nil) / BuffaloRenderer(input, nil, helpers) (matrix "ctx":
+	// Case.Ctx = "nildata" / "buffalo-nildata"). Witness + fix: /tmp/c04hunt/nil-data-map/{main.go,fix.diff}.
+	"(*Context).Set@context.go: assignment to entry in nil map": true,
+	"BuffaloRenderer@plush.go: assignment to entry in nil map":  true,
 }
 
 // ---- the value pool -----------------------------------------------------------------------------------
@@ -204,6 +231,18 @@ type (
 		V    int
 		Kids []Tree
 	}
+	Rec struct{ ID interface{} }
+)
+
+// Values whose OWN method panics when the engine prints them: a String / HTML method promoted through an embedded
+// pointer or interface that is nil (compiler-generated, like the pointer wrapper of a value method), and
+// reflect.Value.Interface on the zero Value. fmt, text/template and html/template print all of them without
+// panicking; plush's output tag calls the method unprotected. Whether that is the engine's defect or the
+// application's is a judgement call (see suspectPool), so they are not part of the pool by default.
+type (
+	EmbStringerNil struct{ fmt.Stringer }
+	EmbPStr        struct{ *Str }
+	EmbPHr         struct{ *Hr }
 )
 
 func (f MyFn) Twice(i int) int { // nil-safe
@@ -542,7 +581,9 @@ var widePool = []*pv{
 	}),
 	w("pfnholder", "ptr", func() interface{} { return &FnHolder{} }),
 	w("arrs", "struct", func() interface{} { return Arrs{A: [2]int{1, 2}, IA: [2]interface{}{1, nil}} }),
-	w("parrs", "ptr", func() interface{} { return &Arrs{A: [2]int{1, 2}, PA: &[2]int{3, 4}, IA: [2]interface{}{[]int{1}, nil}} }),
+	w("parrs", "ptr", func() interface{} {
+		return &Arrs{A: [2]int{1, 2}, PA: &[2]int{3, 4}, IA: [2]interface{}{[]int{1}, nil}}
+	}),
 	w("anonnested", "struct", func() interface{} {
 		return struct {
 			In struct{ F string }
@@ -645,7 +686,7 @@ var widePool = []*pv{
 	{Name: "deepmap", Kind: "map", Key: "string", Odd: true, Wide: true, Heavy: true, Mk: func() interface{} { return deepMap(2000) }},
 	{Name: "deepchain", Kind: "ptr", Odd: true, Wide: true, Heavy: true, Mk: func() interface{} { return newNode(2000) }},
 	// values that contain themselves (Fatal: cases that mention them are rendered in a child process)
-	{Name: "selfslice", Kind: "slice", Odd: true, Wide: true, Fatal: true, Mk: func() interface{} { s := []interface{}{1, nil}; s[1] = s; return s }},
+	{Name: "selfslice", Kind: "slice", Odd: true, Wide: true, Fatal: true, Mk: func() interface{} { s := []interface{}{nil, 1}; s[0] = s; return s }},
 	{Name: "selfmap", Kind: "map", Key: "string", Odd: true, Wide: true, Fatal: true, Mk: func() interface{} { m := map[string]interface{}{"a": 1}; m["abc"] = m; return m }},
 	{Name: "selfkids", Kind: "struct", Odd: true, Wide: true, Fatal: true, Mk: func() interface{} {
 		t := Tree{V: 1, Kids: []Tree{{V: 2}}}
@@ -655,9 +696,10 @@ var widePool = []*pv{
 	{Name: "selfid", Kind: "struct", Odd: true, Wide: true, Fatal: true, Mk: func() interface{} {
 		s := []interface{}{nil}
 		s[0] = s
-		return struct{ ID interface{} }{ID: s}
+		return Rec{ID: s}
 	}},
-	{Name: "tselfarr", Kind: "slice", Odd: true, Wide: true, Fatal: true, Prelude: `<% let tselfarr = [1, nil] %><% tselfarr[1] = tselfarr %>`},
+	{Name: "selfptr", Kind: "ptr", Odd: true, Wide: true, Fatal: true, Mk: func() interface{} { s := []interface{}{nil}; s[0] = &s; return &s }},
+	{Name: "tselfarr", Kind: "slice", Odd: true, Wide: true, Fatal: true, Prelude: `<% let tselfarr = [nil, 1] %><% tselfarr[0] = tselfarr %>`},
 	{Name: "tselfhash", Kind: "map", Key: "string", Odd: true, Wide: true, Fatal: true, Prelude: `<% let tselfhash = {"a": 1} %><% tselfhash["abc"] = tselfhash %>`},
 	// functions: 0, 1, 2 (second not an error), 3 results; nil error; functions as results
 	w("f3", "func", func() interface{} { return func() (int, string, error) { return 1, "s", nil } }),
@@ -824,6 +866,18 @@ var widePool = []*pv{
 	}),
 }
 
+// suspectPool is appended to the pool when includeSuspect is set (or VERIF_C04_SUSPECT=1): see the types above.
+// Root cause on the current tree: compiler.go write() calls t.Interface() / t.HTML() / t.String() without recover.
+var includeSuspect = false
+
+var suspectPool = []*pv{
+	w("rvzero", "struct", func() interface{} { return reflect.Value{} }),
+	w("embstringernil", "struct", func() interface{} { return EmbStringerNil{} }),
+	w("embpstrnil", "struct", func() interface{} { return EmbPStr{} }),
+	w("embphrnil", "struct", func() interface{} { return EmbPHr{} }),
+	w("anyssuspect", "slice", func() interface{} { return []interface{}{1, EmbPStr{}} }),
+}
+
 var byName = map[string]*pv{}
 
 func P(name string) *pv {
@@ -861,8 +915,14 @@ var tiny = map[*pv]bool{} // six(): the partners of a value that contains itself
 // A Wide value meets: every value (thorough) or the core values (quick); another Wide value only in the cheap
 // matrices (square=true) of the thorough tier.
 func pairOK(r *vk.Run, a, b *pv, square bool) bool {
-	if r.Quick() && (a.Fatal && !tiny[b] || b.Fatal && !tiny[a]) {
-		return false // every such case costs a round trip to a child process, and a new process when it dies
+	if r.Quick() && (a.Fatal || b.Fatal) {
+		// every such case costs a round trip to a child process, and a new process when it dies: in the quick
+		// tier two of the values that contain themselves are paired, with six partners; the others stand alone
+		f, o := a, b
+		if !f.Fatal {
+			f, o = b, a
+		}
+		return (f.Name == "selfslice" || f.Name == "tselfhash") && tiny[o]
 	}
 	switch {
 	case !a.Wide && !b.Wide:
@@ -877,6 +937,9 @@ func pairOK(r *vk.Run, a, b *pv, square bool) bool {
 
 func init() {
 	pool = append(pool, widePool...)
+	if includeSuspect || os.Getenv("VERIF_C04_SUSPECT") != "" {
+		pool = append(pool, suspectPool...)
+	}
 	for _, p := range pool {
 		if byName[p.Name] != nil {
 			panic("duplicate pool name " + p.Name)
@@ -1047,6 +1110,9 @@ func rootOf(class string) string {
 
 // isKnown: the class (or its root cause, whatever the matrix) is listed as known-open.
 func isKnown(r *vk.Run, class string) bool {
+	if strings.HasPrefix(class, "random/") && strings.HasSuffix(class, ": fatal error: stack overflow") && knownOpen["fatal error: stack overflow [random program, any site]"] {
+		return true
+	}
 	return knownOpen[class] || knownOpen[rootOf(class)] || r.OpenClass(class) || r.OpenClass(rootOf(class))
 }
 
@@ -1123,6 +1189,14 @@ func render(c Case) (res vk.Res, parseErr error, harness error) {
 		return vk.Res{}, pres.Err, nil
 	}
 	res = vk.Safe(func() (string, error) {
+		switch c.Ctx {
+		case "nildata": // no data at all: a nil map
+			return tpl.Exec(plush.NewContextWith(nil))
+		case "buffalo-nildata":
+			return plush.BuffaloRenderer(string(c.Tmpl), nil, map[string]interface{}{"f0": func() string { return "f0" }})
+		case "buffalo":
+			return plush.BuffaloRenderer(string(c.Tmpl), data, map[string]interface{}{"f0": func() string { return "f0" }})
+		}
 		if c.Ctx == "helptest" { // plush's own second implementation of hctx.Context (helpers/helptest)
 			ctx := helptest.NewContext()
 			for k, v := range plush.Helpers.All() {
@@ -1465,7 +1539,7 @@ func matrixIndex(r *vk.Run, b *builder) {
 	conts = append(conts, sub("pS", ".L"), sub("pS", ".M"), sub("sval", ".L"), sub("pS", ".Any"), sub("pS", ".P"))
 	for _, c := range conts {
 		for _, i := range pool {
-			if !pairOK(r, c, i, true) && !(c.Kind == "map" && c.Wide) { // the further maps meet every key
+			if !pairOK(r, c, i, true) && !(c.Kind == "map" && c.Wide && !(r.Quick() && (c.Fatal || i.Fatal))) { // the further maps meet every key
 				continue
 			}
 			nt := !indexNatural(c, i)
@@ -1629,7 +1703,7 @@ func matrixCall(r *vk.Run, b *builder) {
 			}
 		}
 		for _, a := range pool {
-			if !pairOK(r, cal, a, true) && !callable(cal) {
+			if !pairOK(r, cal, a, true) && !(callable(cal) && !(r.Quick() && a.Fatal && !core[cal])) {
 				continue
 			}
 			b.add(cell{callCase("call", cal.spell(), []*pv{a}, false, cal), true, "call/1 arg, whole pool"})
@@ -1993,6 +2067,16 @@ func matrixCtx(r *vk.Run, b *builder) {
 			c.Vars = trimVars(c)
 			c.Ctx = "helptest"
 			b.add(cell{c, true, fmt.Sprintf("ctx/form%d", k)})
+			if !x.Wide {
+				c.Ctx = "buffalo"
+				b.add(cell{c, true, "ctx/BuffaloRenderer"})
+			}
+		}
+	}
+	// no data: NewContextWith(nil), BuffaloRenderer(input, nil, helpers)
+	for _, t := range []string{"plain", "<%= 1 + 1 %>", "<% let a = 1 %><%= a %>", `<%= len("ab") %>`, "<%= for (v) in [1, 2] { %><%= v %><% } %>", "<%= unk %>", "<%= f0() %>", `<%= {"a": 1}["a"] %>`, "<% let f = fn(q) { return q } %><%= f(1) %>"} {
+		for _, cx := range []string{"nildata", "buffalo-nildata"} {
+			b.add(cell{Case{Matrix: "ctx", Tmpl: vk.Text(t), Ctx: cx}, true, "ctx/no data"})
 		}
 	}
 }
@@ -2524,7 +2608,7 @@ func TestProp(t *testing.T) {
 	runCells(r, "chain: index chains c[i][j][k], calls on results c()() c[0]() g(c)(), 40 shapes + 100 further member shapes x pool", matrixChain)
 	runCells(r, "odd: pool x 60 shapes: loop variables / iterable re-assigned in the body, break / continue / return in odd positions, pool values as hash keys, context keys the engine reads", matrixOdd)
 	runCells(r, "prefix: pool x 67 shapes of the prefix operators - and ! (spaced, doubled, parenthesised, on calls / absent entries / nil members, nested in infix expressions, in if / let / for / return / arguments / literals) + 21 literal operands x 15 shapes", matrixPrefix)
-	runCells(r, "ctx: pool x 29 statement, loop, call and helper shapes executed with a helptest.HelperContext as the context", matrixCtx)
+	runCells(r, "ctx: pool x 29 statement, loop, call and helper shapes executed with a helptest.HelperContext as the context and through BuffaloRenderer; 9 templates with a nil data map", matrixCtx)
 	runCells(r, "sweep: 23 expressions evaluated in one loop over every pool value they accept, in rotated orders, and after a good value over every other value", matrixSweep)
 
 	r.Rapid("random", r.Pick(20000, 150000), func(t *rapid.T) *vk.Fail {
